@@ -113,6 +113,7 @@ package parser
 // across a line continuation).
 //@ spec func alldigits(s string) bool = forall j: 0 <= j < len(s) ==> '0' <= s[j] && s[j] <= '9'
 //@ func (*lexer).scanRaw
+//@   assert[C04] at call parser.(*lexer).mark: a-literal-is-closed-before-the-mark-moves: l.b == ""
 //@   site BEFOREREDIR = call parser.(*lexer).unread#2
 //@   loop "for _, r := range w.Value" invariant[C09] digits-so-far: forall j: 0 <= j && j < rangepos() ==> '0' <= w.Value[j] && w.Value[j] <= '9'
 //@   ensures[C09] digits-before-a-redirection-are-an-io-number: site(BEFOREREDIR) && len(l.word) == 1 && l.word[0] is *ast.Lit && alldigits(l.word[0].(*ast.Lit).Value) ==> result == IO_NUMBER
@@ -162,6 +163,7 @@ package parser
 //@   ensures result == IO_NUMBER ==> len(l.word) == 1 && l.word[0] is *ast.Lit
 //@   ensures result != WORD && result != IO_NUMBER && result >= 0 ==> len(l.word) == 0
 //@ func (*lexer).scanArithExpr
+//@   assert[C04] at call parser.(*lexer).mark: a-literal-is-closed-before-the-mark-moves: l.b == ""
 //@   ensures result == RAE || result == -1
 // An operator is recognised with one rune of look-ahead (two for "<<-") and
 // the look-ahead is given back when it is not part of the operator: scanOp
@@ -188,14 +190,22 @@ package parser
 //@   ensures[C15] other-characters-keep-their-backslash: !(r == '"' || r == '$' || r == '\\' || r == '`' || r == '\n') ==> l.word == old(l.word) && len(l.b) >= old(len(l.b)) + 2 && l.b[old(len(l.b))] == '\\'
 //@ func (*lexer).scanParamExp
 //@   ensures[C03 C10] a-scanner-that-gives-up-has-recorded-why: !result ==> l.err != nil
+// The mark is the position the next literal will carry, so the text collected
+// so far is closed (lit) before the mark moves on to a nested construct:
+// otherwise the literal would be recorded at the position of what follows it.
 //@ func (*lexer).scanParamExpInBraces
+//@   assert[C04] at call parser.(*lexer).mark#9: a-literal-is-closed-before-the-mark-moves: l.b == ""
+//@   assert[C04] at call parser.(*lexer).mark#8: a-literal-is-closed-before-the-mark-moves: l.b == ""
 //@   ensures[C03 C10] a-scanner-that-gives-up-has-recorded-why: !result ==> l.err != nil
 //@ func (*lexer).scanQuote
+//@   assert[C04] at call parser.(*lexer).mark#2: a-literal-is-closed-before-the-mark-moves: l.b == ""
+//@   assert[C04] at call parser.(*lexer).mark#3: a-literal-is-closed-before-the-mark-moves: l.b == ""
 //@   ensures[C03 C10] a-scanner-that-gives-up-has-recorded-why: !result ==> l.err != nil
 //@ func (*lexer).lit
 //@   ensures[C04 C15] literal-carries-the-marked-position: old(l.b) != "" ==> len(l.word) == old(len(l.word)) + 1 && l.word[len(l.word)-1] is *ast.Lit && l.word[len(l.word)-1].(*ast.Lit).ValuePos == old(l.pos) && l.word[len(l.word)-1].(*ast.Lit).Value == old(l.b) && l.b == ""
 //@   ensures[C04 C15] nothing-pending-nothing-added: old(l.b) == "" ==> l.word == old(l.word)
 //@   ensures len(l.word) >= old(len(l.word))
+//@   ensures l.b == ""
 
 // ---- here-document hand-off counter (C01, C08) ----
 //
